@@ -4,7 +4,8 @@ import ScryerModel.Drv.Util
 drv_C43: one history per line.
 
 `hist <id> <flags> <names> <steps>` (TAB separated fields)
-* flags: three characters `0/1`: follow the code with patch C43-1 / C43-2 / C43-3 applied;
+* flags: three characters `0/1`: the tree under test has the patch of finding C43-1 / checks a
+  whole list for clashes before the first update (ISO leaves that open) / has the patch of C43-2;
 * names: hex-encoded names whose table rows are printed;
 * steps (space separated tokens):
   `op ARG ARG OPARG`, ARG ::= `v` | `i<int>` | `a<hex>` | `o<hex>`,
@@ -120,11 +121,10 @@ def steps (fx : Fixes) (curFixed : Bool) (names : List String) :
     | some P, some S, some (O, r') =>
       let c : Call := ⟨P, S, O⟩
       let f := opStepImpl fx t c
-      let i := opStep t c
-      let tagBar := !fx.bar && (opStepImpl ⟨true, fx.atomic⟩ t c != f)
-      let tagAtomic := !fx.atomic && (opStepImpl ⟨fx.bar, true⟩ t c != f)
-      let tags := (if tagBar then ["bar"] else []) ++ (if tagAtomic then ["atomic"] else [])
-      let tags := if f != i && tags.isEmpty then ["unknown"] else tags
+      -- the oracle: `opStep` (= ⟨true,false⟩) or, when the tree under test checks a whole list
+      -- before the first update, `opStepAtomic`; ISO 8.14.3.1 allows both (Props C43_atomic_variant)
+      let i := opStepImpl ⟨true, fx.atomic⟩ t c
+      let tags := if f != i then ["bar"] else []
       let line := "@@".intercalate
         ["op", showErr f.2, showTable names f.1, showErr i.2, showTable names i.1,
          ",".intercalate tags, if invOk f.1 then "1" else "0"]
